@@ -90,6 +90,15 @@ inline void build_table(Table& t, const std::vector<uint32_t>& ord, const std::v
   std::copy(coef.begin(), coef.end(), t.coefficients);
 }
 
+// same, from padded knot arrays (order elements of padding on both sides included), for replays
+inline void build_table_padded(Table& t, const std::vector<uint32_t>& ord, const std::vector<std::vector<double>>& padded,
+                               const std::vector<float>& coef) {
+  std::vector<std::vector<double>> kn; std::vector<double> pads;
+  for (size_t i = 0; i < ord.size(); i++) kn.push_back(std::vector<double>(padded[i].begin() + ord[i], padded[i].end() - ord[i]));
+  build_table(t, ord, kn, coef, nullptr);
+  for (size_t i = 0; i < ord.size(); i++) std::copy(padded[i].begin(), padded[i].end(), t.knots[i] - ord[i]);
+}
+
 inline uint64_t ncoef(const std::vector<uint32_t>& ord, const std::vector<std::vector<double>>& kn) {
   uint64_t n = 1; for (size_t i = 0; i < ord.size(); i++) n *= kn[i].size() - ord[i] - 1; return n;
 }
